@@ -23,7 +23,7 @@ func (c17l3) ID() string { return "C17L3" }
 
 func (c17l3) Plan(tier string) core.Plan {
 	if tier == "thorough" {
-		return core.Plan{Seeded: 16000}
+		return core.Plan{Seeded: 6000}
 	}
 	return core.Plan{Seeded: 480}
 }
